@@ -38,6 +38,7 @@ structure DS where
   ambiguous : List (Nat × Nat) := []          -- (mailbox, comm) cancelled while possibly still in flight, or taken
                                               -- from done_comm_queue_ (its transfer may have ended before the irecv)
   dumps : List (Nat × List String) := []      -- final pending sends per mailbox (implementation)
+  crashExpected : Bool := false               -- the model reached `mbox_->remove(this)` with mbox_ == nullptr
   usedReceiver : List Nat := []               -- mailboxes on which set_receiver was called
   line : Nat := 0
 
@@ -183,6 +184,7 @@ def judge (s : DS) (q a : List String) : DS × Verdict :=
         match s.mbs[hi.mb]? with
         | some m =>
           let amb := (stateOf s h == some .running)
+          let s := if cancelCrashes m hi.id then { s with crashExpected := true } else s
           let s1 := ({ s with mbs := s.mbs.set hi.mb (cancel m hi.id) }).setHandle h { hi with canceled := true }
           (if amb then { s1 with ambiguous := (hi.mb, hi.id) :: s1.ambiguous } else s1, .ok)
         | none => (s, .bad)
@@ -196,14 +198,17 @@ def judge (s : DS) (q a : List String) : DS × Verdict :=
     | _, _, _ => (s, .bad)
   | ["c", _, "clear", m] =>
     match m.toNat?, s.mbs[m.toNat?.getD 99]? with
-    | some m, some mbox => ({ s with mbs := s.mbs.set m (clear mbox) }, .ok)
+    | some m, some mbox =>
+      ({ s with mbs := s.mbs.set m (clear mbox), crashExpected := s.crashExpected || clearCrashes mbox }, .ok)
     | _, _ => (s, .bad)
   | ["c", act, "probe", m, f, tag] =>
     match act.toNat?, parseFilter f, tag.toNat?, s.mbs[m.toNat?.getD 99]? with
     | some act, some f, some tag, some mbox =>
       let md : Option MData := if f == .none then none else some { actor := act, tag := tag, pid := 0 }
       let found := (iprobeRecv mbox f md).bind (·.payload)
-      ({ s with probes := (act, found) :: s.probes.filter (·.1 != act) }, .ok)
+      match m.toNat? with
+      | some m => ({ s with probes := (act, found) :: s.probes.filter (·.1 != act), mbs := s.mbs.set m (iprobeMark mbox f md) }, .ok)
+      | none => (s, .bad)
     | _, _, _, _ => (s, .bad)
   | ["r", act, "probe", _] =>
     match act.toNat? with
@@ -308,7 +313,10 @@ def judge (s : DS) (q a : List String) : DS × Verdict :=
   | ["end"] =>
     match a with
     | [kind, _] =>
-      if kind == "crash" then (s, .monfail "the library crashed") else
+      if kind == "crash" then
+        (s, .monfail (if s.crashExpected then "the library crashed: cancel()/clear() of a queued comm whose mbox_ was reset by an iprobe (null dereference)"
+                      else "the library crashed")) else
+      if s.crashExpected then (s, .disagree "model-expects-null-dereference") else
       match fifoMonitor s with
       | some why => (s, .monfail why)
       | none =>
